@@ -763,13 +763,14 @@ Section Inv.
     set (r2 := find (uptree s) (get_wire s (q2_of g))) in *.
     pose proof G as (GL & GN & G1 & G2).
     unfold cut_both_wires. rewrite GL. simpl. unfold can_add_wires.
+    change (find_qubit_root s (q1_of g)) with r1. change (find_qubit_root s (q2_of g)) with r2.
     destruct (Nat.leb_spec (num_wires s + 2) (length (uptree s))) as [Hroom|Hno]; simpl.
     2:{ exists []; split; [reflexivity|]. split; [intros s' []|]. intros _; left; lia. }
     destruct (Nat.ltb_spec W 2) as [Hno|HW2].
     { exists []; split; [reflexivity|]. split; [intros s' []|]. intros _; now right. }
     rewrite new_wire_val by (rewrite ?(iu_len_wm _ _ _ I); auto; lia). cbn [obind].
     rewrite new_wire_val by (unfold with_new_wire; cbn; rewrite ?upd_length, ?(iu_len_wm _ _ _ I); auto; lia). cbn [obind].
-    unfold with_new_wire at 2 3 4 5; cbn [num_wires].
+    change (num_wires (with_new_wire s (q1_of g))) with (S (num_wires s)).
     set (s2 := with_new_wire (with_new_wire s (q1_of g)) (q2_of g)).
     assert (Eu2 : uptree s2 = uptree s) by reflexivity.
     assert (Rn : parent (uptree s) (num_wires s) = num_wires s) by (apply (iu_fresh _ _ _ I); lia).
@@ -787,13 +788,13 @@ Section Inv.
     destruct (fresh_class _ _ _ (num_wires s) I (le_n _)) as (_ & _ & Fn); [lia|].
     destruct (fresh_class _ _ _ (S (num_wires s)) I) as (_ & _ & Fm); [lia|lia|].
     unfold assert_donot_merge_roots at 1, find_wire_root, set_uf, union_roots;
-      cbn [uptree wiremap num_wires width no_merge gamma_UB actions level]. rewrite Eu2.
+      cbn [uptree wiremap num_wires width no_merge gamma_UB actions level]. rewrite ?Eu2.
     rewrite Nat.min_l, Nat.max_r by lia.
-    rewrite FO by auto. rewrite FU, Fn. fold r1.
+    rewrite FO by auto. rewrite FU, Fn.
     destruct (Nat.eqb_spec (num_wires s) (S (num_wires s))) as [C|_]; [lia|].
     rewrite F1. destruct (Nat.eqb_spec r1 (num_wires s)) as [C|_]; [lia|]. simpl.
     unfold assert_donot_merge_roots, find_wire_root; cbn [uptree wiremap num_wires width no_merge gamma_UB actions level].
-    rewrite FO by auto. rewrite FU, Fm, Nat.eqb_refl. fold r2. rewrite F2.
+    rewrite FO by auto. rewrite FU, Fm, Nat.eqb_refl. rewrite F2.
     destruct (Nat.eqb_spec r2 (num_wires s)) as [C|_]; [lia|]. simpl.
     eexists; split; [reflexivity|]. split; [|discriminate].
     intros s' [<-|[]]. split; [|cbn; rewrite upd_length; repeat split; reflexivity].
